@@ -268,7 +268,7 @@ def run(ctx, rep):
         for (bb, t, kind, tgts, info) in cg.sites(b):
             if kind == "indirect":
                 nind += 1
-                why = INDIRECT_OK.get(fn_key(b))
+                why = INDIRECT_OK.get(re.sub(r"(::\{closure#\d+\})+$", "", fn_key(b)))
                 rep.check("C15.a", f"call-graph/indirect/{fn_key(b)}", why is not None, where=where(b, bb),
                           what=f"{fn_key(b)}: indirect call [{why}]" if why else
                                f"{fn_key(b)}: call through a function pointer / dyn Fn whose targets the call graph cannot enumerate: the 'guard on every call path' claim is not established for paths through this site", nontrivial=False)
